@@ -10,7 +10,8 @@ import CueVerif.Spec.Toml
 import CueVerif.Proofs.TomlRoundFacts
 import CueVerif.Proofs.TomlRoundStep
 open CueVerif.Toml.Spec
-namespace CueVerif.Toml
+namespace CueVerif.Toml.Round
+open CueVerif.Toml
 
 /-- what a run may have changed: only open arrays / seen keys whose key satisfies `Q` -/
 def Frame (Q : Path → Prop) (s s' : St) : Prop :=
@@ -203,4 +204,306 @@ theorem body_ok {K : List Name} {R P : Path} {fs : List (Name × Tree)} {s : St}
       · exact .inr (hRext hp')⟩
   exact hp1.trans hp2
 
+theorem emitEntry_nil (K' : List Name) : ∀ t : Tree, t.entryIsTable = false → emitEntry K' t = []
+  | .sc _, _ => by simp [emitEntry]
+  | .tbl _, h => by simp [Tree.entryIsTable, Tree.isTable] at h
+  | .arr xs, h => by
+    simp [Tree.entryIsTable, Tree.isTable] at h
+    simp [emitEntry, h]
+
+theorem step_table' {s : St} {K' : List Name} {Q : Path} (hw : WF s.arrays) (ho : ArrOrd s.arrays)
+    (he : Encl s.arrays K' Q) (hf : FreshAt K' s) :
+    ∃ s1, step s (.table K') = .ok s1 ∧ s1.seen = keyPath K' :: s.seen ∧ s1.arrays = s.arrays ∧
+      s1.out = s.out ++ [(Q, .tbl)] ∧ s1.cur = Q ∧ s1.curKey = keyPath K' :=
+  ⟨_, step_table hw ho he hf, rfl, rfl, rfl, rfl, rfl⟩
+
+theorem step_arrayTable_fresh' {s : St} {K' : List Name} {base : Path} (hw : WF s.arrays)
+    (ho : ArrOrd s.arrays) (he : Encl s.arrays K' base) (hf : FreshAt K' s) :
+    ∃ s1, step s (.arrayTable K') = .ok s1 ∧ s1.seen = s.seen ∧
+      s1.arrays = s.arrays ++ [mkArr K' base 1] ∧
+      s1.out = s.out ++ [(base, .arr), (base ++ [.idx 0], .tbl)] ∧ s1.cur = base ++ [.idx 0] ∧
+      s1.curKey = keyPath K' ++ [.idx 0] :=
+  ⟨_, step_arrayTable_fresh hw ho he hf, rfl, rfl, rfl, rfl, rfl⟩
+
+theorem step_arrayTable_next' {s : St} {K' : List Name} {base : Path} {i : Nat}
+    {pre post : List OpenArr} (harr : s.arrays = pre ++ mkArr K' base i :: post)
+    (ho : ArrOrd s.arrays) (hseen : keyPath K' ∉ s.seen) :
+    ∃ s1, step s (.arrayTable K') = .ok s1 ∧
+      s1.seen = s.seen.filter (fun k => !strictPrefix (keyPath K') k) ∧
+      s1.arrays = pre ++ mkArr K' base (i + 1) ::
+        post.filter (fun a => !strictPrefix (keyPath K') a.rkey) ∧
+      s1.out = s.out ++ [(base ++ [.idx i], .tbl)] ∧ s1.cur = base ++ [.idx i] ∧
+      s1.curKey = keyPath K' ++ [.idx i] :=
+  ⟨_, step_arrayTable_next harr ho hseen, rfl, rfl, rfl, rfl, rfl⟩
+
+/-- the open arrays after `[[K']]` appended an element to an existing array -/
+theorem next_arrays {arrays pre post : List OpenArr} {K' : List Name} {base : Path} {i : Nat}
+    (harr : arrays = pre ++ mkArr K' base i :: post) (hw : WF arrays) (ho : ArrOrd arrays) :
+    let arrays' := pre ++ mkArr K' base (i + 1) ::
+      post.filter (fun a => !strictPrefix (keyPath K') a.rkey)
+    WF arrays' ∧ ArrOrd arrays' ∧
+      (∀ a, ¬ keyPath K' <+: a.rkey → (a ∈ arrays' ↔ a ∈ arrays)) ∧
+      (∀ a ∈ arrays', ¬ SExt (keyPath K') a.rkey) ∧ mkArr K' base (i + 1) ∈ arrays' := by
+  subst harr
+  intro arrays'
+  have hfilt : ∀ a, a ∈ post.filter (fun a => !strictPrefix (keyPath K') a.rkey) ↔
+      a ∈ post ∧ ¬ SExt (keyPath K') a.rkey := by
+    intro a
+    simp only [List.mem_filter, Bool.not_eq_true', strictPrefix_false_iff]
+  rw [ArrOrd, List.pairwise_append, List.pairwise_cons] at ho
+  obtain ⟨hopre, ⟨ho0, hopost⟩, hocross⟩ := ho
+  refine ⟨?_, ?_, ?_, ?_, ?_⟩
+  · intro a ha
+    simp only [arrays', List.mem_append, List.mem_cons, hfilt] at ha
+    rcases ha with ha | rfl | ha
+    · exact hw a (List.mem_append_left _ ha)
+    · exact hw (mkArr K' base i) (List.mem_append_right _ (List.mem_cons_self ..))
+    · exact hw a (List.mem_append_right _ (List.mem_cons_of_mem _ ha.1))
+  · rw [ArrOrd, List.pairwise_append, List.pairwise_cons]
+    refine ⟨hopre, ⟨fun c hc => ho0 c ((hfilt c).mp hc).1, hopost.filter _⟩, ?_⟩
+    intro b hb c hc
+    rcases List.mem_cons.mp hc with rfl | hc
+    · exact hocross b hb (mkArr K' base i) (List.mem_cons_self ..)
+    · exact hocross b hb c (List.mem_cons_of_mem _ ((hfilt c).mp hc).1)
+  · intro a hna
+    have hne : ∀ n, a ≠ mkArr K' base n := by
+      intro n e
+      apply hna
+      rw [e]
+      exact List.prefix_refl _
+    simp only [arrays', List.mem_append, List.mem_cons, hfilt, hne, false_or]
+    constructor
+    · rintro (h | h)
+      · exact .inl h
+      · exact .inr h.1
+    · rintro (h | h)
+      · exact .inl h
+      · exact .inr ⟨h, fun hs => hna hs.isPrefix⟩
+  · intro a ha
+    simp only [arrays', List.mem_append, List.mem_cons, hfilt] at ha
+    rcases ha with ha | rfl | ha
+    · exact fun hs => hocross a ha (mkArr K' base i) (List.mem_cons_self ..) hs.isPrefix
+    · exact SExt_irrefl _
+    · exact ha.2
+  · simp [arrays']
+
+mutual
+/-- the second pass of a table body under the header key stack `K` at position `P` -/
+theorem subs_ok : ∀ (fs : List (Name × Tree)) (K : List Name) (P : Path) (s : St),
+    (fs.map (·.1)).Nodup → SafeFields fs → WF s.arrays → ArrOrd s.arrays → Encl s.arrays K P →
+    (∀ f ∈ fs, f.2.entryIsTable = true → FreshAt (K ++ [f.1]) s) →
+    ∃ s', run s (emitSubs K fs) = .ok s' ∧ Post (SExt (keyPath K)) s s' (subFacts P fs)
+  | [], K, P, s, _, _, hw, ho, _, _ => by
+    refine ⟨s, by simp only [emitSubs, run], ?_, hw, ho, Frame.refl _ _⟩
+    simp [subFacts]
+  | f :: rest, K, P, s, hn, hs, hw, ho, he, hfr => by
+    simp only [SafeFields] at hs
+    simp only [List.map_cons, List.nodup_cons] at hn
+    cases hb : f.2.entryIsTable
+    · obtain ⟨s2, hr2, hp2⟩ := subs_ok rest K P s hn.2 hs.2 hw ho he
+        (fun f' hf' => hfr f' (List.mem_cons_of_mem _ hf'))
+      refine ⟨s2, ?_, ?_⟩
+      · simpa only [emitSubs, emitEntry_nil _ _ hb, List.nil_append] using hr2
+      · simpa only [subFacts, entryFacts_nil _ _ hb, List.nil_append] using hp2
+    · have hfr0 := hfr f (List.mem_cons_self ..) hb
+      obtain ⟨s1, hr1, hp1⟩ := entry_ok f.2 K f.1 (P ++ [.key f.1]) s hs.1 hb hw ho
+        (Encl_extend hw he (fun a ha e => hfr0.2 a ha (e ▸ List.prefix_refl _))) hfr0
+      obtain ⟨s2, hr2, hp2⟩ := subs_ok rest K P s1 hn.2 hs.2 hp1.wf hp1.ord
+        (Encl.frame hp1.frame (fun k hk hk' => by
+          have h1 := hk.length_le
+          have h2 := hk'.length_le
+          rw [keyPath_length] at h1 h2
+          simp at h1
+          omega) he)
+        (fun f' hf' hb' => FreshAt.frame hp1.frame (fun k hk hk' => by
+          rw [keyPath_snoc] at hk hk'
+          have := snoc_prefix_eq hk hk'
+          injection this with this
+          exact hn.1 (List.mem_map.mpr ⟨f', hf', this.symm⟩))
+          (hfr f' (List.mem_cons_of_mem _ hf') hb'))
+      refine ⟨s2, ?_, ?_⟩
+      · simp only [emitSubs]
+        exact run_append hr1 hr2
+      · simp only [subFacts]
+        refine (hp1.mono (fun k hk => ?_)).trans hp2
+        rw [keyPath_snoc] at hk
+        exact sext_of_snoc_prefix hk
+/-- one table-like entry `K ++ [k]` whose data sits at `Q` -/
+theorem entry_ok : ∀ (t : Tree) (K : List Name) (k : Name) (Q : Path) (s : St),
+    SafeTree t → t.entryIsTable = true → WF s.arrays → ArrOrd s.arrays →
+    Encl s.arrays (K ++ [k]) Q → FreshAt (K ++ [k]) s →
+    ∃ s', run s (emitEntry (K ++ [k]) t) = .ok s' ∧
+      Post (fun key => keyPath (K ++ [k]) <+: key) s s' (entryFacts Q t)
+  | .sc _, _, _, _, _, _, hb, _, _, _, _ => by
+    simp [Tree.entryIsTable, Tree.isTable, Tree.isAoT] at hb
+  | .tbl fs, K, k, Q, s, hsafe, _, hw, ho, he, hf => by
+    simp only [SafeTree] at hsafe
+    obtain ⟨s1, hstep, hseen1, harr1, hout1, hcur1, hck1⟩ := step_table' hw ho he hf
+    obtain ⟨s2, hr2, hp2⟩ := body_ok (K := K ++ [k]) (R := keyPath (K ++ [k])) (P := Q) (fs := fs)
+      (s := s1) (fun s' hw' ho' he' hfr' => subs_ok fs (K ++ [k]) Q s' hsafe.1 hsafe.2 hw' ho' he' hfr')
+      (.inl rfl) hck1 hcur1 (harr1 ▸ hw) (harr1 ▸ ho) (harr1 ▸ he)
+      (fun key hkey hs => by
+        rw [hseen1] at hkey
+        rcases List.mem_cons.mp hkey with rfl | hkey
+        · exact SExt_irrefl _ hs
+        · exact hf.1 key hkey hs.isPrefix)
+      (fun a ha hs => hf.2 a (harr1 ▸ ha) hs.isPrefix) hsafe.1 hsafe.2
+    have hp1 : Post (fun key => keyPath (K ++ [k]) <+: key) s s1 [(Q, .tbl)] :=
+      ⟨hout1, harr1 ▸ hw, harr1 ▸ ho, fun a _ => by rw [harr1], fun key hkey => by
+        rw [hseen1] at hkey
+        rcases List.mem_cons.mp hkey with rfl | hkey
+        · exact .inr (List.prefix_refl _)
+        · exact .inl hkey⟩
+    refine ⟨s2, ?_, ?_⟩
+    · simp only [emitEntry]
+      exact run_cons hstep hr2
+    · have := hp1.trans (hp2.mono (fun k hk => hk.isPrefix))
+      simpa only [entryFacts, List.singleton_append] using this
+  | .arr [], _, _, _, _, _, hb, _, _, _, _ => by
+    simp [Tree.entryIsTable, Tree.isTable, Tree.isAoT] at hb
+  | .arr (.sc _ :: _), _, _, _, _, _, hb, _, _, _, _ => by
+    simp [Tree.entryIsTable, Tree.isTable, Tree.isAoT] at hb
+  | .arr (.arr _ :: _), _, _, _, _, _, hb, _, _, _, _ => by
+    simp [Tree.entryIsTable, Tree.isTable, Tree.isAoT] at hb
+  | .arr (.tbl fs :: xs), K, k, Q, s, hsafe, hb, hw, ho, he, hf => by
+    simp only [SafeTree, SafeElems] at hsafe
+    obtain ⟨⟨hn, hsf⟩, hsx⟩ := hsafe
+    have haot : (Tree.arr (.tbl fs :: xs)).isAoT = true := by
+      simpa [Tree.entryIsTable, Tree.isTable] using hb
+    have hall : xs.all Tree.isTable = true := by
+      simpa [Tree.isAoT, Tree.isTable] using haot
+    obtain ⟨s1, hstep, hseen1, harr1, hout1, hcur1, hck1⟩ := step_arrayTable_fresh' hw ho he hf
+    have hK : 0 < (K ++ [k]).length := by simp
+    have hw1 : WF s1.arrays := by
+      intro a ha
+      rw [harr1] at ha
+      rcases List.mem_append.mp ha with ha | ha
+      · exact hw a ha
+      · rw [List.mem_singleton] at ha
+        subst ha
+        exact ⟨by simp only [mkArr, keyPath_length], hK⟩
+    have ho1 : ArrOrd s1.arrays := by
+      rw [harr1, ArrOrd, List.pairwise_append]
+      refine ⟨ho, List.pairwise_singleton _ _, fun b hb c hc => ?_⟩
+      rw [List.mem_singleton] at hc
+      subst hc
+      exact hf.2 b hb
+    have hm1 : mkArr (K ++ [k]) Q (0 + 1) ∈ s1.arrays := by
+      rw [harr1]; exact List.mem_append_right _ (List.mem_singleton.mpr rfl)
+    obtain ⟨s2, hr2, hp2⟩ := body_ok (K := K ++ [k]) (R := keyPath (K ++ [k]) ++ [.idx 0])
+      (P := Q ++ [.idx 0]) (fs := fs) (s := s1)
+      (fun s' hw' ho' he' hfr' => subs_ok fs (K ++ [k]) (Q ++ [.idx 0]) s' hn hsf hw' ho' he' hfr')
+      (.inr ⟨0, rfl⟩) hck1 hcur1 hw1 ho1 (Encl_self hw1 hm1)
+      (fun key hkey hs => hf.1 key (hseen1 ▸ hkey) hs.isPrefix)
+      (fun a ha hs => by
+        rw [harr1] at ha
+        rcases List.mem_append.mp ha with ha | ha
+        · exact hf.2 a ha hs.isPrefix
+        · rw [List.mem_singleton] at ha
+          subst ha
+          exact SExt_irrefl _ hs) hn hsf
+    have hm2 : mkArr (K ++ [k]) Q 1 ∈ s2.arrays := (hp2.frame.1 _ (SExt_irrefl _)).mpr hm1
+    have hns2 : keyPath (K ++ [k]) ∉ s2.seen := by
+      intro hmem
+      rcases hp2.frame.2 _ hmem with h | h
+      · exact hf.1 _ (hseen1 ▸ h) (List.prefix_refl _)
+      · exact SExt_irrefl _ h
+    obtain ⟨s3, hr3, hp3, _, _⟩ := elems_ok xs (K ++ [k]) Q 1 s2 hsx hall hp2.wf hp2.ord hm2 hns2
+    have hp1 : Post (fun key => keyPath (K ++ [k]) <+: key) s s1
+        [(Q, .arr), (Q ++ [.idx 0], .tbl)] :=
+      ⟨hout1, hw1, ho1, fun a hna => by
+        rw [harr1, List.mem_append, List.mem_singleton]
+        constructor
+        · rintro (h | h)
+          · exact h
+          · exact absurd (h ▸ List.prefix_refl _) hna
+        · exact .inl, fun key hkey => .inl (hseen1 ▸ hkey)⟩
+    refine ⟨s3, ?_, ?_⟩
+    · simp only [emitEntry, haot, if_true, emitElems, emitElem]
+      exact run_append (run_cons hstep hr2) hr3
+    · have := (hp1.trans (hp2.mono (fun k hk => hk.isPrefix))).trans hp3
+      simpa only [entryFacts, haot, if_true, elemsFacts, elemFacts, List.cons_append,
+        List.nil_append, List.append_assoc, Nat.zero_add] using this
+/-- the elements after the first of an array of tables `[[K']]` whose list sits at `base` -/
+theorem elems_ok : ∀ (xs : List Tree) (K' : List Name) (base : Path) (i : Nat) (s : St),
+    SafeElems xs → xs.all Tree.isTable = true → WF s.arrays → ArrOrd s.arrays →
+    mkArr K' base i ∈ s.arrays → keyPath K' ∉ s.seen →
+    ∃ s', run s (emitElems K' xs) = .ok s' ∧
+      Post (fun key => keyPath K' <+: key) s s' (elemsFacts base i xs) ∧
+      mkArr K' base (i + xs.length) ∈ s'.arrays ∧ keyPath K' ∉ s'.seen
+  | [], K', base, i, s, _, _, hw, ho, hm, hns => by
+    refine ⟨s, by simp only [emitElems, run], ⟨?_, hw, ho, Frame.refl _ _⟩, by simpa using hm, hns⟩
+    simp [elemsFacts]
+  | .sc _ :: _, _, _, _, _, _, hall, _, _, _, _ => by simp [Tree.isTable] at hall
+  | .arr _ :: _, _, _, _, _, _, hall, _, _, _, _ => by simp [Tree.isTable] at hall
+  | .tbl fs :: xs, K', base, i, s, hsafe, hall, hw, ho, hm, hns => by
+    simp only [SafeElems, SafeTree] at hsafe
+    obtain ⟨⟨hn, hsf⟩, hsx⟩ := hsafe
+    have hall' : xs.all Tree.isTable = true := by simpa [Tree.isTable] using hall
+    obtain ⟨pre, post, harr⟩ := List.append_of_mem hm
+    obtain ⟨s1, hstep, hseen1, harr1, hout1, hcur1, hck1⟩ := step_arrayTable_next' harr ho hns
+    obtain ⟨hw1, ho1, hfr1, hbel1, hm1⟩ := next_arrays harr hw ho
+    rw [← harr1] at hw1 ho1 hfr1 hbel1 hm1
+    obtain ⟨s2, hr2, hp2⟩ := body_ok (K := K') (R := keyPath K' ++ [.idx i])
+      (P := base ++ [.idx i]) (fs := fs) (s := s1)
+      (fun s' hw' ho' he' hfr' => subs_ok fs K' (base ++ [.idx i]) s' hn hsf hw' ho' he' hfr')
+      (.inr ⟨i, rfl⟩) hck1 hcur1 hw1 ho1 (Encl_self hw1 hm1)
+      (fun key hkey hs => by
+        rw [hseen1, List.mem_filter] at hkey
+        have := hkey.2
+        simp only [Bool.not_eq_true', strictPrefix_false_iff] at this
+        exact this hs)
+      hbel1 hn hsf
+    have hm2 : mkArr K' base (i + 1) ∈ s2.arrays := (hp2.frame.1 _ (SExt_irrefl _)).mpr hm1
+    have hns1 : keyPath K' ∉ s1.seen := by
+      rw [hseen1, List.mem_filter]
+      exact fun h => hns h.1
+    have hns2 : keyPath K' ∉ s2.seen := by
+      intro hmem
+      rcases hp2.frame.2 _ hmem with h | h
+      · exact hns1 h
+      · exact SExt_irrefl _ h
+    obtain ⟨s3, hr3, hp3, hm3, hns3⟩ :=
+      elems_ok xs K' base (i + 1) s2 hsx hall' hp2.wf hp2.ord hm2 hns2
+    have hp1 : Post (fun key => keyPath K' <+: key) s s1 [(base ++ [.idx i], .tbl)] :=
+      ⟨hout1, hw1, ho1, hfr1, fun key hkey => by
+        rw [hseen1, List.mem_filter] at hkey
+        exact .inl hkey.1⟩
+    refine ⟨s3, ?_, ?_, ?_, hns3⟩
+    · simp only [emitElems, emitElem]
+      exact run_append (run_cons hstep hr2) hr3
+    · have := (hp1.trans (hp2.mono (fun k hk => hk.isPrefix))).trans hp3
+      simpa only [elemsFacts, elemFacts, List.cons_append, List.nil_append,
+        List.append_assoc] using this
+    · have e : i + (Tree.tbl fs :: xs).length = i + 1 + xs.length := by
+        simp only [List.length_cons]; omega
+      rw [e]; exact hm3
+end
+
+end CueVerif.Toml.Round
+
+namespace CueVerif.Toml
+open Round
+
+/-- the encoder → decoder round trip on every TOML-safe tree -/
+theorem roundtrip (t : Tree) (evs : List Ev) (hs : SafeTree t) (he : emit t = some evs) :
+    ∃ fs, decode evs = .ok fs ∧ SameData fs (t.facts []) := by
+  cases t with
+  | sc a => simp [emit] at he
+  | arr xs => simp [emit] at he
+  | tbl fs =>
+    simp only [emit, Option.some.injEq] at he
+    subst he
+    simp only [SafeTree] at hs
+    have hw0 : WF St.init.arrays := fun a ha => by cases ha
+    have ho0 : ArrOrd St.init.arrays := List.Pairwise.nil
+    obtain ⟨s', hr, hp⟩ := body_ok (K := []) (R := []) (P := []) (fs := fs) (s := St.init)
+      (fun s' hw' ho' he' hfr' => subs_ok fs [] [] s' hs.1 hs.2 hw' ho' he' hfr')
+      (.inl rfl) rfl rfl hw0 ho0 (.inr ⟨fun b hb => (by cases hb), rfl⟩)
+      (fun key hkey => by cases hkey) (fun a ha => by cases ha) hs.1 hs.2
+    refine ⟨([], .tbl) :: s'.out, by simp only [decode, hr], ?_⟩
+    rw [hp.out]
+    exact bodyFacts_sameData fs
+
 end CueVerif.Toml
+
